@@ -214,19 +214,19 @@ pub fn run_spec(spec: &Spec, mode: Mode) -> Result<RunOut, String> {
     match spec.kind.as_str() {
         "mh_gauss" => {
             let target = Gaussian2D { mean: arr1(&[0.5f64, -1.0]), cov: arr2(&[[2.0, 0.6], [0.6, 1.0]]) };
-            let proposal = IsotropicGaussian::<f64>::new(0.9).set_seed(spec.seed ^ 0x5eed);
+            let proposal = IsotropicGaussian::<f64>::new(0.9).set_seed(spec.pos_seed ^ 0x5eed);
             let mut s = MetropolisHastings::new(target, proposal, init_with_seed::<f64>(nc, 2, spec.pos_seed)).seed(spec.seed);
             runner_out(&mut s, spec, mode, arr_bits::<f64>)
         }
         "mh_gauss_f32" => {
             let target = Gaussian2D { mean: arr1(&[0.5f32, -1.0]), cov: arr2(&[[2.0, 0.6], [0.6, 1.0]]) };
-            let proposal = IsotropicGaussian::<f32>::new(0.9).set_seed(spec.seed ^ 0x5eed);
+            let proposal = IsotropicGaussian::<f32>::new(0.9).set_seed(spec.pos_seed ^ 0x5eed);
             let mut s = MetropolisHastings::new(target, proposal, init_with_seed::<f32>(nc, 2, spec.pos_seed)).seed(spec.seed);
             runner_out(&mut s, spec, mode, arr_bits::<f32>)
         }
         "mh_table" => {
             let target = TableTarget { logp: vec![-1.0, -0.2, -2.5, f64::NEG_INFINITY, -0.7, -1.3, -3.0] };
-            let proposal = WalkProposal { p_up: 0.6, rng: SmallRng::seed_from_u64(0) }.set_seed(spec.seed ^ 0x77);
+            let proposal = WalkProposal { p_up: 0.6, rng: SmallRng::seed_from_u64(0) }.set_seed(spec.pos_seed ^ 0x77);
             let init: Vec<Vec<i32>> = (0..nc).map(|c| vec![(c % 3) as i32]).collect();
             let mut s = MetropolisHastings::new(target, proposal, init).seed(spec.seed);
             runner_out(&mut s, spec, mode, arr_bits_i32)
